@@ -13,7 +13,7 @@ def drive(vdrive, prop, stimuli, chunk=400, workers=None, timeout=600):
 
     def one(ch):
         inp = "".join(json.dumps(s, separators=(",", ":")) + "\n" for s in ch)
-        p = subprocess.run([vdrive, prop], input=inp.encode(), capture_output=True, timeout=timeout)
+        p = subprocess.run([vdrive, prop], input=inp.encode(), capture_output=True, cwd=common.scratch(), timeout=timeout)
         if p.returncode != 0:
             raise common.Infra(f"vdrive {prop} exited {p.returncode}: {p.stderr.decode(errors='replace')[-2000:]}")
         return [json.loads(l) for l in p.stdout.decode().splitlines() if l.strip()]
